@@ -14,7 +14,7 @@ import subprocess
 import sys
 
 VERIF = os.path.dirname(os.path.dirname(os.path.abspath(__file__)))
-BASE = "/tmp/m/sweep"
+BASE = os.environ.get("SWEEP_BASE", "/tmp/m/sweep")
 
 
 def sh(cmd, **kw):
